@@ -1246,11 +1246,11 @@ func walkerFamily(repo, which string) (string, error) {
 		for _, k := range l.kinds {
 			for _, f := range k.Fields {
 				if f.Optional && f.Pointer {
-					opt = append(opt, fmt.Sprintf("(%d, %d) (* %s.%s *)", l.kindIdx[k.Name], l.fieldIdx[f.Name], k.Name, f.Name))
+					opt = append(opt, fmt.Sprintf("(%d, %d, %d) (* %s.%s *%s *)", l.kindIdx[k.Name], l.fieldIdx[f.Name], l.kindIdx[f.Kinds[0]], k.Name, f.Name, f.Kinds[0]))
 				}
 			}
 		}
-		fmt.Fprintf(&sb, "Definition gen_optional_ptr_fields : list (N * N) := [%s].\n\n", strings.Join(opt, "; "))
+		fmt.Fprintf(&sb, "(* optional fields of pointer type: (kind, field, kind pointed to) -- an unguarded walk passes a typed nil *)\nDefinition gen_optional_ptr_fields : list (N * N * N) := [%s].\n\n", strings.Join(opt, "; "))
 		for _, need := range []string{"IfStmt", "FuncDecl", "File"} {
 			idx, ok := l.kindIdx[need]
 			if !ok {
@@ -1340,5 +1340,137 @@ func walkerFamily(repo, which string) (string, error) {
 		fmt.Fprintf(&sb, "Definition gen_place_fan : list (N * list N) := [\n%s\n].\n\n", strings.Join(fs, ";\n"))
 		fmt.Fprintf(&sb, "(* runRules: the flag that ends the rule loop is ... of the callbacks' verdicts *)\nDefinition gen_matched_accumulates : bool := %v.\n", t.runLoop.Accumulates && !t.runLoop.Overwrites)
 	}
+	return sb.String(), nil
+}
+
+// ---------------------------------------------------------------------------------------------- walkstate
+// Who reads and writes the walk-scoped context (filterParams.deadcode / currentFunc), and the Deadcode() filter.
+
+func init() {
+	subcommands["walkstate"] = func(repo string, args []string) (string, error) { return walkState(repo) }
+}
+
+func wkEnclosing(f *ast.File, pos token.Pos) string {
+	for _, d := range f.Decls {
+		if fd, ok := d.(*ast.FuncDecl); ok && fd.Pos() <= pos && pos < fd.End() {
+			if fd.Recv != nil && len(fd.Recv.List) == 1 {
+				t := fd.Recv.List[0].Type
+				if st, ok := t.(*ast.StarExpr); ok {
+					t = st.X
+				}
+				if id, ok := t.(*ast.Ident); ok {
+					return id.Name + "." + fd.Name.Name
+				}
+			}
+			return fd.Name.Name
+		}
+	}
+	return "<toplevel>"
+}
+
+func walkState(repo string) (string, error) {
+	fset := token.NewFileSet()
+	dir := filepath.Join(repo, "ruleguard")
+	ents, err := os.ReadDir(dir)
+	if err != nil {
+		return "", err
+	}
+	type site struct{ field, where string }
+	var writes []site
+	var filterShape, wired string
+	for _, e := range ents {
+		name := e.Name()
+		if e.IsDir() || !strings.HasSuffix(name, ".go") || strings.HasSuffix(name, "_test.go") || strings.HasPrefix(name, "verif_hooks") {
+			continue
+		}
+		f, err := parser.ParseFile(fset, filepath.Join(dir, name), nil, 0)
+		if err != nil {
+			return "", err
+		}
+		isCtx := func(e ast.Expr) (string, bool) {
+			if se, ok := e.(*ast.SelectorExpr); ok && (se.Sel.Name == "deadcode" || se.Sel.Name == "currentFunc") {
+				return se.Sel.Name, true
+			}
+			return "", false
+		}
+		ast.Inspect(f, func(n ast.Node) bool {
+			switch n := n.(type) {
+			case *ast.AssignStmt:
+				for _, l := range n.Lhs {
+					if fld, ok := isCtx(l); ok {
+						writes = append(writes, site{fld, name + ":" + wkEnclosing(f, n.Pos())})
+					}
+				}
+			case *ast.IncDecStmt:
+				if fld, ok := isCtx(n.X); ok {
+					writes = append(writes, site{fld, name + ":" + wkEnclosing(f, n.Pos())})
+				}
+			case *ast.UnaryExpr:
+				if n.Op == token.AND {
+					if fld, ok := isCtx(n.X); ok {
+						writes = append(writes, site{fld, name + ":" + wkEnclosing(f, n.Pos()) + " (address taken)"})
+					}
+				}
+			case *ast.KeyValueExpr:
+				if id, ok := n.Key.(*ast.Ident); ok && (id.Name == "deadcode" || id.Name == "currentFunc") {
+					writes = append(writes, site{id.Name, name + ":" + wkEnclosing(f, n.Pos()) + " (literal)"})
+				}
+			}
+			return true
+		})
+		if fd := wkFindFunc(f, "", "makeDeadcodeFilter"); fd != nil {
+			filterShape = "unknown"
+			if len(fd.Body.List) == 1 && len(fd.Type.Params.List) == 1 {
+				srcN := fd.Type.Params.List[0].Names[0].Name
+				if rs, ok := fd.Body.List[0].(*ast.ReturnStmt); ok && len(rs.Results) == 1 {
+					if fl, ok := rs.Results[0].(*ast.FuncLit); ok && len(fl.Type.Params.List) == 1 && len(fl.Body.List) == 2 {
+						p := fl.Type.Params.List[0].Names[0].Name
+						a, b := wkSrc(fset, fl.Body.List[0]), wkSrc(fset, fl.Body.List[1])
+						switch {
+						case a == "if "+p+".deadcode { return filterSuccess }" && b == "return filterFailure("+srcN+")":
+							filterShape = "accepts-iff-flag"
+						case a == "if !"+p+".deadcode { return filterSuccess }" && b == "return filterFailure("+srcN+")",
+							a == "if "+p+".deadcode { return filterFailure("+srcN+") }" && b == "return filterSuccess":
+							filterShape = "accepts-iff-not-flag"
+						}
+					}
+				}
+			}
+		}
+		if fd := wkFindFunc(f, "irLoader", "newFilter"); fd != nil {
+			ast.Inspect(fd, func(n ast.Node) bool {
+				cc, ok := n.(*ast.CaseClause)
+				if !ok || len(cc.List) != 1 || wkSrc(fset, cc.List[0]) != "ir.FilterDeadcodeOp" {
+					return true
+				}
+				wired = "other"
+				if len(cc.Body) == 1 && wkSrc(fset, cc.Body[0]) == "result.fn = makeDeadcodeFilter(result.src)" {
+					wired = "ok"
+				}
+				return false
+			})
+		}
+	}
+	if filterShape == "" || filterShape == "unknown" {
+		return "", fmt.Errorf("makeDeadcodeFilter: body not understood")
+	}
+	if wired == "" {
+		return "", fmt.Errorf("newFilter: no case for ir.FilterDeadcodeOp")
+	}
+	var sb strings.Builder
+	fmt.Fprintf(&sb, walkerHeader, "walkstate", "ruleguard/*.go (writers of filterParams.deadcode / currentFunc), filters.go:makeDeadcodeFilter, ir_loader.go:newFilter")
+	fmt.Fprintf(&sb, "Definition gen_deadcode_filter_accepts_iff_flag : bool := %v.\n", filterShape == "accepts-iff-flag")
+	fmt.Fprintf(&sb, "Definition gen_deadcode_op_wired : bool := %v.\n", wired == "ok")
+	var outside []string
+	inWalker := map[string]int{}
+	for _, w := range writes {
+		if w.where == "ast_walker.go:astWalker.walk" {
+			inWalker[w.field]++
+			continue
+		}
+		outside = append(outside, strconv.Quote(w.field+" @ "+w.where)+"%string")
+	}
+	fmt.Fprintf(&sb, "(* writes to the walk-scoped context outside astWalker.walk (a fresh filterParams literal leaves both at their zero value) *)\nDefinition gen_ctx_writes_outside_walker : list string := [%s].\n", strings.Join(outside, "; "))
+	fmt.Fprintf(&sb, "Definition gen_deadcode_writes_in_walker : N := %d.\nDefinition gen_currentfunc_writes_in_walker : N := %d.\n", inWalker["deadcode"], inWalker["currentFunc"])
 	return sb.String(), nil
 }
